@@ -4,17 +4,23 @@ import AiocoapModel.Uri.Decompose
 
 Model of `aiocoap/message.py` `get_request_uri` for a request on the client side without
 Proxy-Uri / Proxy-Scheme / Uri-Path-Abbrev (those branches, responses and the multicast
-override are not modelled), after the `fix:` commit that percent-encodes the Uri-Host value
-as a reg-name (`_quote_host`).  `urllib.parse.urlunparse` with empty params and fragment is
+override are not modelled), after the `fix:` commits that percent-encode the Uri-Host value
+as a reg-name (`_quote_host`) unless it is an IPv6 address whose brackets pair up and whose
+zone identifier is made of unreserved characters.  `urllib.parse.urlunparse` with empty params and fragment is
 the plain concatenation written out in `render`.
 -/
 namespace Aiocoap.Uri
 
+/-- the test of `_quote_host` (`message.py`) for "this Uri-Host value is an IPv6 address": it has
+a colon or a bracket, `ipaddress.IPv6Address` takes it (brackets count in pairs only), and — since
+`ipaddress` takes any text for a zone identifier — its zone identifier is unreserved -/
+def passesAsAddress (ip : IpOracle) (h : Bytes) : Bool :=
+  (h.contains 58 || h.contains 91) && (ip.norm6 (unbracket h)).isSome && zoneOk (unbracket h)
+
 /-- `_quote_host` (`message.py`): an IPv6 literal is passed on verbatim (hostportjoin adds the
 brackets), anything else is percent-encoded as a reg-name -/
 def escHost (ip : IpOracle) (h : Bytes) : Bytes :=
-  if (h.contains 58 || h.contains 91) && (ip.norm6 (unbracket h)).isSome then h
-  else quote regNameSafe h
+  if passesAsAddress ip h then h else quote regNameSafe h
 
 /-- Python `a or b` on optional strings (`None` and `""` are falsy) -/
 def pyOr (a b : Option Bytes) : Option Bytes :=
